@@ -1,4 +1,5 @@
 import FteikVerif.Proofs.GenEquivSolver2
+import FteikVerif.Generated.KSolver2
 import FteikVerif.Proofs.FixedPoint
 /-!
 # Tie C for the loops of `_fteik2d.py`: `sweep2d`
